@@ -34,6 +34,32 @@ else:
         t.snapshot_manager.delete_snapshot(arg["snapshot"])
     elif op == "gc":
         t.garbage_collect(grace_period_ms=0)
+    elif op == "shared-overlap":
+        # two threads committing through ONE Table object: thread A is held just before it writes its manifest list (its data file and
+        # manifest are written), thread B commits completely meanwhile; the trace up to the marker is judged against B's version
+        import threading
+        a_paused, b_done = threading.Event(), threading.Event()
+        fm = t.file_manager
+        orig = fm.create_manifest_list_file
+        def hooked(*a, **k):
+            if threading.current_thread().name == "A" and not a_paused.is_set():
+                a_paused.set()
+                b_done.wait(60)
+            return orig(*a, **k)
+        fm.create_manifest_list_file = hooked
+        def run_a():
+            t.append_records(tablekit.rows(1, start=700, tag="A"))
+        def run_b():
+            a_paused.wait(60)
+            t.append_records(tablekit.rows(1, start=800, tag="B"))
+            with open(path + "/metadata.version-hint.text") as f_:
+                name = f_.read().strip()
+            with open(path + ".BNAME", "w") as f_:
+                f_.write(name)
+            open(path + ".MARK", "w").close()
+            b_done.set()
+        ta, tb = threading.Thread(target=run_a, name="A"), threading.Thread(target=run_b, name="B")
+        ta.start(); tb.start(); ta.join(); tb.join()
     elif op == "recreate":
         # the table directory is dropped and created again IN THE SAME PROCESS; only the last append (after the marker) is judged
         import shutil
